@@ -30,8 +30,39 @@ pub const IMPORTS: &[&str] = &[
   "",
 ];
 pub const PRAGMAS: &[&str] = &["", "/** @jsx h */\n", "/** @jsx h */\n/** @jsxFrag Fragment */\n", "/** @jsx React.createElement */\n", "// @jsx h\n"];
-pub const FACTORIES: &[Option<&str>] = &[None, Some("h"), Some("React.createElement"), Some("createElement"), Some("jsx"), Some("a.b.c")];
+pub const FACTORIES: &[Option<&str>] = &[None, Some("h"), Some("React.createElement"), Some("createElement"), Some("jsx"), Some("a.b.c"), Some("a..b"), Some("class"), Some("")];
 pub const FRAGS: &[Option<&str>] = &[None, Some("Fragment"), Some("React.Fragment"), Some("F")];
+
+/// which of the two pragmas a header of block comments sets, by the documented reading: a line of a block comment
+/// (after an optional leading `*`) that starts with `@jsx` is a sequence of `name value` pairs
+fn pragmas_of(header: &str) -> (bool, bool) {
+  let (mut j, mut f) = (false, false);
+  let mut rest = header;
+  while let Some(a) = rest.find("/*") {
+    let Some(len) = rest[a + 2..].find("*/") else { break };
+    let text = &rest[a + 2..a + 2 + len];
+    for line in text.lines() {
+      let mut l = line.trim();
+      if let Some(r) = l.strip_prefix('*') {
+        l = r.trim();
+      }
+      if !l.starts_with("@jsx") {
+        continue;
+      }
+      let w: Vec<&str> = l.split_whitespace().collect();
+      for pair in w.chunks(2) {
+        if pair.len() == 2 && pair[0] == "@jsx" {
+          j = true;
+        }
+        if pair.len() == 2 && pair[0] == "@jsxFrag" {
+          f = true;
+        }
+      }
+    }
+    rest = &rest[a + 2 + len + 2..];
+  }
+  (j, f)
+}
 
 fn idents_of(expr: &str) -> Vec<String> {
   expr.split('.').take(1).map(|s| s.to_string()).collect() // only the root object is a variable reference
@@ -46,7 +77,42 @@ pub fn run(args: &Args) {
     let mut crng = rng.fork();
     // a JSX program assembled from parts, or a corpus snippet (JSX or not)
     let (src, ext, has_pragma_jsx, has_pragma_frag) = if crng.chance(2, 3) {
-      let pr = PRAGMAS[crng.below(PRAGMAS.len())];
+      let generated;
+      let pr = if crng.chance(1, 2) {
+        PRAGMAS[crng.below(PRAGMAS.len())]
+      } else {
+        // a header assembled from directive lines: the two pragmas alone, together, next to other `@jsx…` / `@ts-…`
+        // directives in the same comment, on the same line, or in comments of their own
+        let mut lines: Vec<String> = vec![];
+        if crng.chance(2, 3) {
+          lines.push(format!("@jsx {}", ["h", "React.createElement", "createElement"][crng.below(3)]));
+        }
+        if crng.chance(1, 2) {
+          lines.push(format!("@jsxFrag {}", ["Fragment", "F", "React.Fragment"][crng.below(3)]));
+        }
+        for _ in 0..crng.below(3) {
+          lines.push(["@jsxRuntime classic", "@jsxRuntime automatic", "@jsxImportSource preact", "@ts-nocheck", "Copyright the authors.", "@deno-types=\"./x.d.ts\""][crng.below(6)].to_string());
+        }
+        // seed-dependent order
+        for i in (1..lines.len()).rev() {
+          let j = crng.below(i + 1);
+          lines.swap(i, j);
+        }
+        let mut h = String::new();
+        match crng.below(4) {
+          0 => {
+            for l in &lines {
+              h.push_str(&format!("/** {} */\n", l));
+            }
+          }
+          1 => h.push_str(&format!("/**\n{} */\n", lines.iter().map(|l| format!(" * {}\n", l)).collect::<String>())),
+          2 => h.push_str(&format!("/* {} */\n", lines.join(" "))),
+          _ => h.push_str(&format!("/*\n{}\n*/\n", lines.join("\n"))),
+        }
+        out.count("pragma-header=generated");
+        generated = h;
+        generated.as_str()
+      };
       let imp = IMPORTS[crng.below(IMPORTS.len())];
       let n = crng.range(1, 3);
       let mut body = String::new();
@@ -55,7 +121,8 @@ pub fn run(args: &Args) {
         body.push('\n');
       }
       let ext = ["tsx", "jsx", "ts", "js"][crng.below(4)];
-      (format!("{}{}\n{}", pr, imp, body), ext, pr.starts_with("/*") && pr.contains("@jsx "), pr.starts_with("/*") && pr.contains("@jsxFrag"))
+      let (pj, pf) = pragmas_of(pr);
+      (format!("{}{}\n{}", pr, imp, body), ext, pj, pf)
     } else {
       let s = &corpus[crng.below(corpus.len())];
       let ext = if s.src.contains("</") || s.src.contains("/>") { "tsx" } else { "ts" };
